@@ -37,6 +37,10 @@ def check_case(case):
   if not out.ok:
     return core.result(False, labels + ['raised:%s' % out.stage])
   labels.append('returned')
+  return verify_modes(case, out, labels)
+
+
+def verify_modes(case, out, labels):
   src, res = fb.parse(out.model_bytes), fb.parse(out.qbytes)
   try:
     ms = skeleton.match(src, res)
